@@ -396,13 +396,13 @@ macro_rules! impl_bytes_mut_utils {
         return Ok(core::ptr::NonNull::dangling());
       }
 
-      let align_offset = crate::align_offset::<T>(self.allocated.memory_offset + self.len as u32);
+      let align_offset = crate::align_offset::<T>(self.allocated.ptr_offset + self.len as u32);
 
-      if align_offset > self.allocated.memory_offset + self.allocated.memory_size {
-        return Err(InsufficientBuffer::with_information((align_offset as u64 - self.len as u64 - self.allocated.memory_offset as u64), (self.allocated.memory_size as u64 - self.len as u64)));
+      if align_offset > self.allocated.ptr_offset + self.allocated.ptr_size {
+        return Err(InsufficientBuffer::with_information((align_offset as u64 - self.len as u64 - self.allocated.ptr_offset as u64), (self.allocated.ptr_size as u64 - self.len as u64)));
       }
 
-      self.len = (align_offset - self.allocated.memory_offset) as usize;
+      self.len = (align_offset - self.allocated.ptr_offset) as usize;
       // SAFETY: We have checked the buffer size, and apply the align
       Ok(unsafe {
         core::ptr::NonNull::new_unchecked(self.as_mut_ptr().add(self.len).cast::<T>())
@@ -474,7 +474,15 @@ macro_rules! impl_bytes_mut_utils {
     ///   2. Pointers are not recoverable, like `*const T`, `*mut T`, `NonNull` and any structs contains pointers,
     ///      although those types are on stack, but they cannot be recovered, when reopens the file.
     pub unsafe fn put_aligned<T>(&mut self, val: T) -> Result<&mut T, InsufficientBuffer> { unsafe {
+      let size = ::core::mem::size_of::<T>();
+      let len = self.len;
       let mut ptr = self.align_to::<T>()?;
+
+      if self.len + size > self.capacity() {
+        let padding = self.len - len;
+        self.len = len;
+        return Err(InsufficientBuffer::with_information((padding + size) as u64, (self.capacity() - len) as u64));
+      }
 
       ptr.as_ptr().write(val);
       self.len += ::core::mem::size_of::<T>();
